@@ -6,25 +6,35 @@
 //   lost-key   a key the writer announced as inserted (release store of a counter that the reader acquired before the
 //              call) and never erases is not found
 //   torn       a found value does not carry the pattern of exactly the requested key
+//   dead-value a found value carries the DEAD pattern its destructor writes: the library (or a wrong protocol) ended its
+//              lifetime while it was still published
 //   race       ThreadSanitizer report (the process exits with status 97; comp/radixconc/check.py classifies it)
 // Header line:  stress <nreaders>
 // Script lines: S k v  insert a key that stays present until the end ("stable")
 //               i k v  insert a churn key        e k  erase a churn key        o k v  find_or_insert
-// A churn key is re-inserted into its old slot only after a grace period (every reader has finished the call it was
+// Erased values are destroyed only by the caller protocol  p = find(k); erase(k); [grace period]; p->~T()  and
+// a churn key is re-inserted into its old slot only after a grace period (every reader has finished the call it was
 // in): that is the caller's obligation for reusing a slot (qs.hpp in real uses), not the tree's.
 #include <atomic>
 #include <thread>
 #include <mutex>
 #include <set>
+#include <map>
 #include "vharness.hpp"
 #include <frg/rcu_radixtree.hpp>
 
 namespace {
 
+constexpr uint64_t DEAD = 0xDEADDEADDEADDEADull;
 struct Val {
 	uint64_t key, a, b, c;
 	Val(uint64_t k, uint64_t v) : key(k), a(v), b(~v), c(v * 0x9E3779B97F4A7C15ull ^ k) {}
+	// non-trivial destructor: plain stores of a DEAD pattern, so that a value destroyed while a reader can still obtain
+	// it is a TSan race and/or fails the pattern check ("dead-value")
+	// (the compiler barrier keeps the stores: GCC's lifetime-DSE would otherwise drop stores made by a destructor)
+	~Val() { key = DEAD; a = DEAD; b = DEAD; c = DEAD; asm volatile("" : : "r"(this) : "memory"); }
 	bool ok_for(uint64_t k) const { return key == k && b == ~a && c == (a * 0x9E3779B97F4A7C15ull ^ k); }
+	bool dead() const { return key == DEAD || a == DEAD || b == DEAD || c == DEAD; }
 };
 struct MAlloc {
 	void *allocate(size_t n) { return ::malloc(n); }
@@ -50,6 +60,12 @@ void fail(const char *kind, const char *fmt, unsigned long long a, unsigned long
 	if(g_fail.size() < 8) g_fail.push_back({kind, buf});
 }
 
+void check(const Val *p, uint64_t k) {
+	if(p->ok_for(k)) return;
+	if(p->dead()) fail("dead-value", "find(%#llx) returned a value whose destructor has already run (pattern %#llx)", k, p->key);
+	else fail("torn", "find(%#llx): value pattern does not belong to the key (value key %#llx)", k, p->key);
+}
+
 void reader(Tree *t, int id, int nreaders, const std::vector<uint64_t> *stable, const std::vector<uint64_t> *other, uint64_t seed) {
 	uint64_t x = seed * 0x9E3779B97F4A7C15ull + id + 1;
 	auto rnd = [&]() { x ^= x << 13; x ^= x >> 7; x ^= x << 17; return x; };
@@ -65,7 +81,7 @@ void reader(Tree *t, int id, int nreaders, const std::vector<uint64_t> *stable, 
 				Val *p = t->find(k);
 				finds++;
 				if(!p) fail("lost-key", "find(%#llx) = null although the key is present throughout (stable key #%llu)", k, i);
-				else { found++; if(!p->ok_for(k)) fail("torn", "find(%#llx): value pattern does not belong to the key (value key %#llx)", k, p->key); }
+				else { found++; check(p, k); }
 			}
 		}
 		if(!other->empty()) {
@@ -73,7 +89,7 @@ void reader(Tree *t, int id, int nreaders, const std::vector<uint64_t> *stable, 
 			if((rnd() & 7) == 0) k ^= uint64_t(1) << (4 * (rnd() % 16));
 			Val *p = t->find(k);
 			finds++;
-			if(p) { found++; if(!p->ok_for(k)) fail("torn", "find(%#llx): value pattern does not belong to the key (value key %#llx)", k, p->key); }
+			if(p) { found++; check(p, k); }
 		}
 		g_rc[id].fetch_add(1, std::memory_order_release);
 		if(last) break;
@@ -114,6 +130,7 @@ void body(const vh::Lines &ls) {
 		std::vector<std::thread> th;
 		for(int i = 0; i < nreaders; i++) th.emplace_back(reader, &t, i, nreaders, &stable, &other, 12345 + ls.size());
 		std::set<uint64_t> present, reused;
+		std::map<uint64_t, Val *> pending;        // erased, not yet destroyed: the caller's part of the erase protocol
 		size_t sc = 0;
 		int asserts = 0;
 		auto total = [&]() { uint64_t s = 0; for(int i = 0; i < nreaders; i++) s += g_rc[i].load(std::memory_order_relaxed); return s; };
@@ -128,17 +145,24 @@ void body(const vh::Lines &ls) {
 					g_stable_count.store(++sc, std::memory_order_release);
 				} else if(o.kind == 'i' || o.kind == 'o') {
 					if(present.count(o.k)) { if(o.kind == 'o') t.find_or_insert(o.k, o.k, o.v); continue; }
-					if(reused.count(o.k)) grace(nreaders);
+					if(reused.count(o.k)) {
+						grace(nreaders);                   // every reader has left the call in which it could have obtained the pointer
+						auto pd = pending.find(o.k);
+						if(pd != pending.end()) { pd->second->~Val(); pending.erase(pd); }
+					}
 					if(o.kind == 'i') t.insert(o.k, o.k, o.v); else t.find_or_insert(o.k, o.k, o.v);
 					present.insert(o.k); inserted++;
 				} else if(o.kind == 'e') {
 					if(!present.count(o.k)) continue;
+					Val *p = t.find(o.k);               // documented protocol: p = find(k); erase(k); [grace period]; p->~T()
 					t.erase(o.k); present.erase(o.k); reused.insert(o.k); erased++;
+					if(p) pending[o.k] = p;
 				}
 			} catch(vh::AssertStop &a) { asserts++; break; }
 		}
 		g_done.store(true, std::memory_order_release);
 		for(auto &x : th) x.join();
+		for(auto &pd : pending) pd.second->~Val();     // all readers joined: the grace period of every erased value is over
 		if(asserts) vh::oracle("unexpected-assert", "FRG_ASSERT fired in the writer of a valid script");
 		// the destructor runs with all readers joined
 	}
